@@ -116,6 +116,10 @@ func runC09(c *Ctx) {
 			// property asks for permission-denied on every such attempt
 			ok, why = false, fmt.Sprintf("modifying request %s answered %v (status=%v code=%d), not permission-denied", truncs(canon(p)), resp != nil, isStatus, code)
 		}
+		if ok && !mutating && denied {
+			// purely reading requests keep working on a read-only server (the harness runs as root: no file permission can be the reason)
+			ok, why = false, fmt.Sprintf("reading request %s was refused with permission-denied by the read-only server", truncs(canon(p)))
+		}
 		if err != nil {
 			ok, why = false, "no response: "+err.Error()
 			rs.Close()
